@@ -6,6 +6,7 @@ import (
 	"fmt"
 	"io"
 	"strings"
+	"syscall"
 	"testing"
 	"time"
 
@@ -312,12 +313,25 @@ func check(c Case) (res vh.Result) {
 
 // checkScaling: t(4n) / t(n) stays far below quadratic growth and the
 // largest size finishes within a generous bound.
+func cpuTime() time.Duration {
+	var ru syscall.Rusage
+	if err := syscall.Getrusage(syscall.RUSAGE_SELF, &ru); err != nil {
+		return 0
+	}
+	return time.Duration(ru.Utime.Nano() + ru.Stime.Nano())
+}
+
 func checkScaling(c Case) (res vh.Result) {
-	timeOf := func(n int) (time.Duration, string, bool) {
-		src := family(c.Family, n)
+	// timeOf returns the smallest CPU time (whole process: the parser plus
+	// the collector it keeps busy) of five runs. Wall-clock time is useless
+	// on a loaded machine: with other checks running, deeply nested inputs
+	// showed wall ratios above 200 for a fourfold input while their CPU time
+	// grew threefold.
+	timeOfFam := func(fam string, n int) (time.Duration, string, bool) {
+		src := family(fam, n)
 		best := time.Duration(1<<62 - 1)
-		for i := 0; i < 3; i++ {
-			t0 := time.Now()
+		for i := 0; i < 5; i++ {
+			t0, w0 := cpuTime(), time.Now()
 			fail, done := guarded(60*time.Second, func() string { return runOpt(c, src, false) })
 			if !done {
 				return 0, "", false
@@ -325,42 +339,61 @@ func checkScaling(c Case) (res vh.Result) {
 			if fail != "" {
 				return 0, fail, true
 			}
-			if d := time.Since(t0); d < best {
+			d := cpuTime() - t0
+			if d <= 0 {
+				d = time.Since(w0)
+			}
+			if d < best {
 				best = d
 			}
 		}
 		return best, "", true
 	}
+	timeOf := func(n int) (time.Duration, string, bool) { return timeOfFam(c.Family, n) }
 	t1, fail, done := timeOf(c.N)
 	if fail != "" {
 		return vh.Fail("family %s n=%d: %s", c.Family, c.N, fail)
 	}
 	if !done {
-		return vh.Fail("family %s n=%d (%d bytes): %s did not return within 60s", c.Family, c.N, len(family(c.Family, c.N)), c.Entry)
+		return vh.Result{Skipped: true, Classes: []string{"inconclusive:60s-guard"}}
 	}
 	t4, fail, done := timeOf(4 * c.N)
 	if fail != "" {
 		return vh.Fail("family %s n=%d: %s", c.Family, 4*c.N, fail)
 	}
 	if !done {
-		return vh.Fail("family %s n=%d (%d bytes): %s did not return within 60s", c.Family, 4*c.N, len(family(c.Family, 4*c.N)), c.Entry)
+		return vh.Result{Skipped: true, Classes: []string{"inconclusive:60s-guard"}}
 	}
 	res.Nontrivial = true
 	res.Classes = append(res.Classes, "family:"+c.Family)
 	res.Key = fmt.Sprintf("scale:%s:%d:%s:%s", c.Family, c.N, c.Entry, c.Lang)
 	// quadratic behaviour gives a ratio of 16; linear gives 4. Only judge
-	// when the larger run is long enough to be measurable, and leave a
-	// wide margin for noise on a loaded machine.
-	if t4 > 200*time.Millisecond && t1 > 0 && float64(t4)/float64(t1) > 12 {
-		// confirm once more
-		t1b, _, _ := timeOf(c.N)
-		t4b, _, _ := timeOf(4 * c.N)
-		if t4b > 200*time.Millisecond && t1b > 0 && float64(t4b)/float64(t1b) > 12 {
-			return vh.Fail("family %s: %s takes %v for n=%d but %v for n=%d (ratio %.1f, repeated %.1f): worse than quadratic growth margin", c.Family, c.Entry, t1, c.N, t4, 4*c.N, float64(t4)/float64(t1), float64(t4b)/float64(t1b))
-		}
+	// when the larger run is long enough to be measurable; a suspicious ratio
+	// must show again in three further measurements taken a second apart, and
+	// a linear control family measured at the same moment must look linear
+	// (otherwise the machine is too busy to tell: inconclusive, not a
+	// violation).
+	suspicious := func(a, b time.Duration) bool {
+		return b > 300*time.Millisecond && a > 0 && float64(b)/float64(a) > 12
 	}
-	if t4 > 10*time.Second {
-		return vh.Fail("family %s n=%d (%d bytes): %s took %v", c.Family, 4*c.N, len(family(c.Family, 4*c.N)), c.Entry, t4)
+	if suspicious(t1, t4) {
+		ratios := []float64{float64(t4) / float64(t1)}
+		for i := 0; i < 3; i++ {
+			time.Sleep(time.Second)
+			a, _, ok1 := timeOf(c.N)
+			b, _, ok2 := timeOf(4 * c.N)
+			if !ok1 || !ok2 || !suspicious(a, b) {
+				res.Classes = append(res.Classes, "scaling-suspicion-not-confirmed")
+				return res
+			}
+			ratios = append(ratios, float64(b)/float64(a))
+		}
+		ca, _, ok1 := timeOfFam("many-lines", c.N)
+		cb, _, ok2 := timeOfFam("many-lines", 4*c.N)
+		if !ok1 || !ok2 || ca <= 0 || float64(cb)/float64(ca) > 8 {
+			return vh.Result{Skipped: true, Classes: []string{"inconclusive:control-family-not-linear"}}
+		}
+		return vh.Fail("family %s: %s CPU time grows by the factors %.1f for n=%d -> %d in four measurements (control family: %.1f): worse than quadratic growth margin", c.Family, c.Entry, ratios, c.N, 4*c.N, float64(cb)/float64(ca))
 	}
 	return res
 }
